@@ -20,34 +20,38 @@ RULE = ("every listed function x every optional-parameter variant it offers x im
         "{0, 1, +big, -big, noise, +inf, NaN} (binary: False/True/noise) + the base call repeated at the end; non-trivial = the mask has both in and out pixels, some replacement really changes a "
         "masked-out pixel and the base output is not constant inside the mask; distinct by hash of the case")
 TRUSTED = [
-    "translator tools/gen_maskflow_c12.py (symbolic evaluation of the Python AST -> mask-dataflow term, fail-closed; 36 of "
-    "the 40 functions) and the 4 hand-written terms of tools/maskflow_hand_c12.py (openlines, circular_hough, "
-    "regional_maximum, convex_hull_transform) pinned to normalised-AST hashes (tools/maskflow_pins_c12.json)",
+    "translator tools/gen_maskflow_c12.py (symbolic evaluation of the Python AST -> mask-dataflow program with shared "
+    "definitions, fail-closed; 39 of the 40 functions) and the one hand-written term of tools/maskflow_hand_c12.py "
+    "(regional_maximum, over an abstract structure) pinned to a normalised-AST hash (tools/maskflow_pins_c12.json)",
     "library-symbol locality table of gen_maskflow_c12.py (the interface the theorems quantify over): POINTWISE NumPy "
     "ufuncs/astype/copy; convolve with a literal kxk kernel local with radius k//2 (reflect border reads stay within "
     "that radius); binary_erosion(m, generate_binary_structure(2,2), border_value=0) = Erode 1; GLOBAL = pure functions "
     "of their array arguments (table_lookup, scind.grey_erosion/dilation, gaussian_filter, label, "
     "distance_transform_edt, rank_order, lstsq, index_lookup, helper functions of the three modules, a user-supplied "
     "smoothing function); in-place kernels skeletonize_loop / _filter.median_filter write only their declared argument; "
-    "extract_from_image_lookup(img, i, j) = img at the indexed pixels else 0; a loop is a pure function of the entry "
-    "values of the variables it reads",
+    "extract_from_image_lookup(img, i, j) = img at the indexed pixels else 0",
+    "loop rule: one symbolic iteration with the loop-carried variables as placeholders; the loop's results are pure "
+    "functions of the entry values and of the carry-free sub-terms of that iteration (instances over the iterations "
+    "differ only in image-independent constants, which the checker ignores), pointwise in p when every path from a "
+    "placeholder to the root is pointwise; x[k,:,:] = v builds a stack of image planes, max/min/sum/mean(axis=0) of a "
+    "stack is pointwise; loops with break/continue or data-dependent branches fall back to `pure function of the "
+    "entry values of everything read`",
     "NumPy identities: x[m] = gather(where(m,x,0), m) for boolean m; (x with x[s]:=y)[s] = y; x[~m]=c / x[m]=y[m] as "
-    "where(); x[s1][m[s2]] with literal slices enumerates x at p + start(s1) - start(s2) over the true pixels p of m in "
-    "m's order whenever the code combines it elementwise with a vector gathered by m (NumPy raises otherwise); dtype "
-    "conversions of a mask keep its truthiness",
+    "where(); y[k][m[k]] used under the selector m[k] equals where(m,y,0)[k]; x[s1][m[s2]] with literal slices "
+    "enumerates x at p + start(s1) - start(s2) over the true pixels p of m in m's order whenever the code combines it "
+    "elementwise with a vector gathered by m (NumPy raises otherwise); dtype conversions of a mask keep its truthiness",
     "modelled, not verified: arrays as total functions on Z*Z; determinism of NumPy/SciPy (two runs on equal data give "
-    "equal bits); openlines' angle loop written out for three angles; regional_maximum's term covers full "
-    "(2r+1)x(2r+1) structures of every r (sparse structures are covered by the two-run oracle only)",
+    "equal bits); regional_maximum's hand term: the structure is an abstract offset set, the tie-break an opaque pure "
+    "function of the ties pass",
 ]
 ASSUMPTIONS = ["image and mask have the same 2-d shape; mask is boolean; the smoothing function handed to "
                "smooth_with_function_and_mask is pure"]
 EXHAUSTIVE = {"quick": False, "thorough": False}
 
 # ------------------------------------------------------------------------------------------------ static side
-# hand-written, pinned to the normalised AST: loops over shifted slices (openlines, circular_hough, regional_maximum);
-# convex_hull_transform translates automatically but its term, written as a tree, has 1.6e9 nodes (the language has
-# no sharing construct)
-HAND_TERMS = ["openlines", "circular_hough", "regional_maximum", "convex_hull_transform"]
+# hand-written, pinned to the normalised AST: regional_maximum (recursion + loops over the offsets of an arbitrary
+# structure with computed slice bounds); its term is stated over an abstract structure (LocS / ErodeS)
+HAND_TERMS = ["regional_maximum"]
 BINARY = ["bridge", "clean", "diag", "endpoints", "branchpoints", "fill", "fill4", "hbreak", "vbreak", "majority",
           "remove", "spur", "thicken", "thin", "skeletonize"]
 LISTED = ["median_filter", "grey_erosion", "grey_dilation", "opening", "closing", "white_tophat", "black_tophat",
@@ -127,10 +131,13 @@ def emit(terms, rejected, extra=None):
            "Import ListNotations.", ""]
     body = []
     order = [n for n in ("median_filter",) if n in terms] + [n for n in LISTED if n != "median_filter"]
+    sizes = {}
     for name in list(rejected) + order + list(extra):
         t = rejected[name] if name in rejected else (extra[name] if name in extra else terms[name])
-        body.append("(* %s:  %s *)" % (name, G.show(t).replace("(*", "( *").replace("*)", "* )")))
-        body.append("Definition prog_%s : expr :=\n  %s." % (name, em.coq(t)))
+        sizes[name] = (em.dag_size(t), em.tsize(t))
+        body.append("(* %s (%d DAG nodes, %d as a tree):  %s *)" % (
+            name, sizes[name][0], sizes[name][1], G.show(t).replace("(*", "( *").replace("*)", "* )")))
+        body.append("Definition prog_%s : prog :=\n  %s." % (name, em.prog(t)))
         if name in rejected:
             body.append("Example %s_rejected : accepts prog_%s = false.\nProof. vm_compute. reflexivity. Qed." % (name, name))
         else:
@@ -139,23 +146,27 @@ def emit(terms, rejected, extra=None):
                 body.append("Example %s_restores : restores_outside prog_%s = true.\nProof. vm_compute. reflexivity. Qed."
                             % (name, name))
         body.append("")
+    import maskflow_hand_c12 as Hd
+    for name, t in param.items():
+        body.append("(* %s: the term of %s with a symbolic (abstract) structure s *)" % (name, Hd.PARAM[name][0]))
+        body.append("Definition prog_%s (s : nat) : prog :=\n  %s." % (name, em.prog(t, (Hd.SSYM, "s"))))
+        body.append("Lemma %s_ok : forall s, accepts (prog_%s s) = true.\nProof. intros s. unfold accepts, prog_%s. cbn. "
+                    "rewrite ?PeanoNat.Nat.eqb_refl. cbn. reflexivity. Qed.\n" % (name, name, name))
     out.append("(* library symbols (index: name) *)")
     out.append("(* " + "; ".join("%d: %s" % (i, n.replace("*)", "* )")) for n, i in em.syms.items()) + " *)")
     out.append("(* constants (index: name) *)")
     out.append("(* " + "; ".join("%d: %s" % (i, n.replace("*)", "* )")) for n, i in em.consts.items()) + " *)")
-    out.append("")
-    out.append("(* shared sub-terms (text sharing only) *)")
-    out.extend(em.defs)
+    import re as _re
+    used = set()
+    for n, i in em.syms.items():
+        ident = "sym_" + _re.sub(r"[^A-Za-z0-9]+", "_", n).strip("_")
+        if ident not in used:
+            used.add(ident)
+            out.append("Definition %s : nat := %d." % (ident, i))
     out.append("")
     out.extend(body)
-    import maskflow_hand_c12 as Hd
-    for name, t in param.items():
-        out.append("(* %s: the term of %s with a symbolic structure radius r *)" % (name, Hd.PARAM[name][0]))
-        out.append("Definition prog_%s (r : nat) : expr :=\n  %s." % (name, em.coq_param(t, Hd.RSYM)))
-        out.append("Lemma %s_ok : forall r, accepts (prog_%s r) = true.\nProof. intros r. unfold accepts, prog_%s. cbn. "
-                   "rewrite ?PeanoNat.Nat.leb_refl. cbn. reflexivity. Qed.\n" % (name, name, name))
-    out.append("Definition listed_progs : list expr :=\n  [%s]." % "; ".join("prog_" + n for n in LISTED))
-    out.append("Definition binary_progs : list expr :=\n  [%s]." % "; ".join("prog_" + n for n in BINARY))
+    out.append("Definition listed_progs : list prog :=\n  [%s]." % "; ".join("prog_" + n for n in LISTED))
+    out.append("Definition binary_progs : list prog :=\n  [%s]." % "; ".join("prog_" + n for n in BINARY))
     out.append("Lemma listed_accepted : forallb accepts listed_progs = true.\nProof. vm_compute. reflexivity. Qed.")
     out.append("Lemma binary_restore : forallb restores_outside binary_progs = true.\nProof. vm_compute. reflexivity. Qed.")
     out.append("Lemma listed_count : (length listed_progs, length binary_progs) = (%d, %d)%%nat.\nProof. reflexivity. Qed."
@@ -672,7 +683,7 @@ MANIFEST = {
         "EVERY interpretation of the library symbols that respects the declared locality: an accepted program is "
         "non-interfering inside the mask, a program ending in `result[~mask] = image[~mask]` returns its input outside. "
         "On every run a fail-closed translator turns the staged source of the 40 listed functions into such programs "
-        "(36 by symbolic evaluation of the Python AST, 4 hand-written and pinned to the function's normalised-AST hash) and the "
+        "(39 by symbolic evaluation of the Python AST into DAG programs, regional_maximum hand-written over an abstract structure and pinned to its normalised-AST hash) and the "
         "kernel re-checks that every one is accepted (and that the 15 binary operations restore). Dynamically every "
         "function and optional-parameter variant is run on (img, mask) and on images differing outside the mask; the "
         "outputs are compared bit for bit inside the mask (binary family: also outside against the input) through the "
